@@ -422,6 +422,7 @@ def catalogue():
     add = lambda *a: c.append(a)
     add("map-1:1", {"type": "field_name_mapping", "mapping": {"f1": "g1", "f3": "g3"}}, t_fieldmap(lambda n: {"f1": "g1", "f3": "g3"}.get(n)), "field", False)
     add("map-1:n", {"type": "field_name_mapping", "mapping": {"f1": ["g1", "g2"], "f2": ["h1", "h2", "h3"]}}, t_fieldmap(lambda n: {"f1": ["g1", "g2"], "f2": ["h1", "h2", "h3"]}.get(n)), "field", False)
+    add("map-n:1", {"type": "field_name_mapping", "mapping": {"f1": "g", "f2": "g", "f3": "g"}}, t_fieldmap(lambda n: {"f1": "g", "f2": "g", "f3": "g"}.get(n)), "field", False)
     add("map-keyword", {"type": "field_name_mapping", "mapping": {None: "msg", "f2": "g2"}}, t_fieldmap(lambda n: {None: "msg", "f2": "g2"}.get(n)), "field", False)
     add("map-unmapped", {"type": "field_name_mapping", "mapping": {"zz": "yy"}}, t_fieldmap(lambda n: None), "field", True)
     add("prefixmap", {"type": "field_name_prefix_mapping", "mapping": {"f": "g.", "Hash": "h."}}, t_fieldmap(lambda n: None if n is None else ("g." + n[1:] if n.startswith("f") else ("h." + n[4:] if n.startswith("Hash") else None))), "field", False)
@@ -441,6 +442,7 @@ def catalogue():
     add("replace-wild", {"type": "replace_string", "regex": "v", "replacement": "W*"}, t_values(r_replace("v", "W*"), numbers=True), "value", False)
     add("mapstr-1:1", {"type": "map_string", "mapping": {"v1": "w1", "Va": "wa"}}, t_values(r_map({"v1": "w1", "Va": "wa"})), "value", False)
     add("mapstr-1:n", {"type": "map_string", "mapping": {"v1": ["w1", "w2*"]}}, t_values(r_map({"v1": ["w1", "w2*"]})), "value", False)
+    add("mapstr-empty", {"type": "map_string", "mapping": {"v1": [], "Va": "", "x": []}}, t_values(r_map({"v1": [], "Va": "", "x": []})), "value", False)
     add("mapstr-miss", {"type": "map_string", "mapping": {"zz": "y"}}, t_values(r_map({"zz": "y"})), "value", True)
     for nm, val in (("str", "S*"), ("num", 7), ("bool", True), ("null", None)):
         add("setval-" + nm, {"type": "set_value", "value": val}, t_set_value(val), "value", False)
@@ -533,6 +535,8 @@ def judge(res, rname, product, steps, label):
         add_violation(res, f"unexpected-error:{type(e).__name__}:{label}", case, F.show(ref)[:300], str(e)[:200])
         return
     except Exception as e:
+        if ref == "unspec":
+            return  # the documented rewrite is not a rule the reference defines (e.g. a keyword of type null): not judged here
         add_violation(res, f"crash:{type(e).__name__}:{label}", case, "queries", repr(e)[:200])
         return
     identity = all(s[4] or s[5][0] == "rule-false" for s in steps)
